@@ -594,7 +594,9 @@ func (g *graph) entry() {
 		if dir.Command != "ignore" && dir.Command != "file-ignore" {
 			continue
 		}
-		if len(dir.Arguments) == 0 {
+		if len(dir.Arguments) < 2 {
+			// A directive without a reason is malformed. It gets reported
+			// as such and doesn't ignore anything.
 			continue
 		}
 		if slices.Contains(strings.Split(dir.Arguments[0], ","), "U1000") {
